@@ -47,6 +47,7 @@ package revocation
 //@   uses sha256supported
 //@   requires event != nil && event.E != nil
 //@   ensures value: bytes(result) == mhsum(evbytes(event), 18)
+//@   ensures wellformed: mhok(bytes(result)) && mhcode(bytes(result)) == 18
 //@   modifies nothing
 
 //@ func (*Event).hashEquals
@@ -198,3 +199,26 @@ package revocation
 //@   ensures listkept: len(eventlist.Events) == old(len(eventlist.Events)) && forall i in 0..len(eventlist.Events) :: eventlist.Events[i] == old(eventlist.Events[i])
 //@   modifies update.Events, update.product, update.productFrom, update.SignedAccumulator, elems(eventlist.Events)
 //@   mustfail canary: err != nil
+
+
+//@ # ---- compressed event lists (C10, C18): what a decoded list contains is consistent by construction ----
+//@ func (*compressedEventList).validate
+//@   property C10 C18 C08
+//@   requires c != nil
+//@   ensures ok: err == nil ==> forall i in 0..len(c.E) :: c.E[i] != nil
+//@   modifies nothing
+//@   loop 0 invariant 0 <= $i && $i <= len(c.E) && forall j in 0..$i :: c.E[j] != nil
+//@   mustfail canary: err != nil
+
+//@ func (*EventList).uncompress
+//@   property C10 C18 C08
+//@   safety
+//@   requires el != nil && c != nil && forall i in 0..len(c.E) :: c.E[i] != nil
+//@   ensures shape: len(el.Events) == len(c.E) && el.verified && evnonnil(el.Events)
+//@   ensures values: forall i in 0..len(el.Events) :: el.Events[i].E == c.E[i] && el.Events[i].Index == wrapU64(i + c.Index)
+//@   ensures chained: (len(el.Events) > 0 ==> el.Events[0].ParentHash == c.ParentHash) && forall i in 1..len(el.Events) :: hasheq(el.Events[i-1], el.Events[i].ParentHash)
+//@   modifies el.Events, el.product, el.verified
+//@   loop 0 invariant 0 <= $i && $i <= len(el.Events) && len(el.Events) == len(c.E) && (len(c.E) > 0 ==> fresh(el.Events)) && (el.ComputeProduct ==> el.product != nil && fresh(el.product))
+//@   loop 0 invariant forall j in 0..$i :: el.Events[j] != nil && fresh(el.Events[j]) && el.Events[j].E == c.E[j] && el.Events[j].Index == wrapU64(j + c.Index)
+//@   loop 0 invariant ($i > 0 ==> el.Events[0].ParentHash == c.ParentHash) && forall j in 1..$i :: hasheq(el.Events[j-1], el.Events[j].ParentHash)
+//@   loop 0 modifies elems(el.Events), onlyfresh("BV"), onlyfresh("revocation.Event")
